@@ -606,7 +606,55 @@ var markerPool = []string{"<script>verif-marker</script>", "\"><img src=x onerro
 	// values that already contain character references (as if pre-encoded) next to live markup
 	"Terms &amp; conditions <script>verif-marker</script>", "it&#39;s \"><img src=x onerror=verif-marker>", "&lt;b&gt; then <b verif-marker>", "&quot;&#x3c;\"'<verif-marker>", "&nbsp;&bogus;<verif-marker>"}
 
+// every header name that occurs as a string literal in the code under check (regenerated dictionary, build/dict.json) except
+// the ones with a dedicated field of reqSpec; plus the request headers of the CORS and upgrade protocols.  The model takes none
+// of them as input (beyond the identity names it strips), so any dependence of the answer on them shows as a disagreement.
+var dictHdrOnce struct {
+	done  bool
+	names []string
+}
+
+func dictHeaderNames() []string {
+	if dictHdrOnce.done {
+		return dictHdrOnce.names
+	}
+	dictHdrOnce.done = true
+	names := []string{"Access-Control-Request-Method", "Access-Control-Request-Headers", "X-Requested-With", "Authorization", "Upgrade", "Connection", "Cache-Control", "Purpose", "Sec-Fetch-Mode", "X-Original-URL", "X-Rewrite-URL"}
+	if p := osGetenv("VERIF_DICT"); p != "" {
+		func() {
+			defer func() { recover() }()
+			d := readJSONFile(p)
+			if hs, ok := d["header"].([]interface{}); ok {
+				for _, h := range hs {
+					if n, ok := h.(string); ok && n != "Accept" && n != "Origin" && n != "X-Forwarded-Host" && n != "X-Forwarded-Proto" && !inList(names, n) {
+						names = append(names, n)
+					}
+				}
+			}
+		}()
+	}
+	dictHdrOnce.names = names
+	return names
+}
+
+var dictHdrValues = []string{"1", "true", "GET", "POST", "DELETE", "authorization", "XMLHttpRequest", "websocket", "Upgrade", "Bearer x.y.z", "no-cache", "prefetch", "cors", "/public/x", "https://evil.test", "admin"}
+
 func (w *world) randomReqSpec(rng *mrand.Rand, prop string) reqSpec {
+	rs := w.randomReqSpec0(rng, prop)
+	hostile := prop == "C01" || prop == "C10" || prop == "C17"
+	if hostile && rng.Intn(3) == 0 || rng.Intn(12) == 0 {
+		names := dictHeaderNames()
+		for i := 0; i < 1+rng.Intn(3); i++ {
+			rs.hdrs = append(rs.hdrs, [2]string{names[rng.Intn(len(names))], dictHdrValues[rng.Intn(len(dictHdrValues))]})
+		}
+		if rs.method == "OPTIONS" && rs.origin != "" && rng.Intn(2) == 0 { // a well-formed CORS preflight
+			rs.hdrs = append(rs.hdrs, [2]string{"Access-Control-Request-Method", []string{"GET", "POST", "DELETE"}[rng.Intn(3)]})
+		}
+	}
+	return rs
+}
+
+func (w *world) randomReqSpec0(rng *mrand.Rand, prop string) reqSpec {
 	rs := reqSpec{}
 	hostile := prop == "C01" || prop == "C10" || prop == "C16" || prop == "C17" || prop == "C15"
 	if hostile || rng.Intn(4) == 0 {
